@@ -2,7 +2,8 @@
    the global extremes of the distance.  Only statements, `exact`, Print
    Assumptions and non-vacuity / refutation examples live here.
    Models: Model/Extrema.v (as coded; np.roots is an oracle whose output is an
-   argument of the model). *)
+   argument of the model).  Variant flag [fixed]: polyroots de-duplication,
+   false = pinned pair-index loop, true = repaired loop (= C19's dedup_fixed). *)
 From Coq Require Import ZArith QArith Qcanon List Bool Reals Lra.
 From SVP Require Import Base.Num Base.Cplx Base.Poly Model.Bezier Model.Extrema
      Proofs.BezierAlg Proofs.ExtremaLemmas Proofs.ExtremaBbox Proofs.ExtremaRadial Proofs.ExtremaDedup.
@@ -22,17 +23,22 @@ Proof. exact line_radial_global. Qed.
 (* ---- bezier_radialrange (Quadratic / Cubic): p = seg.poly() coefficients,
    point = seg.point, roots = np.roots(r_squared.deriv()) ---- *)
 (* unconditional part: parameters in [0,1], distances are the distances there *)
-Theorem C13_bezier_attained : forall atol rtol point z roots,
-  let '((dmin, tmin), (dmax, tmax)) := bezier_radialrange NumR NumTR atol rtol point z roots in
+Theorem C13_bezier_attained : forall fixed atol rtol point z roots,
+  let '((dmin, tmin), (dmax, tmax)) := bezier_radialrange NumR NumTR fixed atol rtol point z roots in
   0 <= tmin <= 1 /\ 0 <= tmax <= 1 /\ dmin = dist (point tmin) z /\ dmax = dist (point tmax) z.
 Proof. exact bezier_radial_attained. Qed.
 (* global under the explicit oracle contract: np.roots lists every real root
    in [0,1] of d/dt |B - z|^2 (unless that polynomial is identically zero) and
-   no two surviving roots are isclose (so the de-duplication loop is the identity) *)
-Theorem C13_bezier_global_partial : forall atol rtol p point z roots, 0 < atol -> p <> [] ->
+   the separation premise of the variant holds:
+     fixed = false: no two surviving list positions are isclose (the pinned
+                    pair-index loop must be the identity; forbids a double root
+                    listed twice -- a premise that exists only because of the bug);
+     fixed = true : surviving roots with DIFFERENT values are not isclose
+                    (multiplicities are harmless) *)
+Theorem C13_bezier_global_partial : forall fixed atol rtol p point z roots, 0 < atol -> 0 <= rtol -> p <> [] ->
   (forall t, point t = cpeval NumR p t) ->
-  oracle_ok (r_squared_deriv NumR p z) roots -> separated atol rtol (le01 NumR) roots ->
-  let '((dmin, tmin), (dmax, tmax)) := bezier_radialrange NumR NumTR atol rtol point z roots in
+  oracle_ok (r_squared_deriv NumR p z) roots -> separated fixed atol rtol (le01 NumR) roots ->
+  let '((dmin, tmin), (dmax, tmax)) := bezier_radialrange NumR NumTR fixed atol rtol point z roots in
   forall t, 0 <= t <= 1 -> dmin <= dist (point t) z <= dmax.
 Proof. exact bezier_radial_global. Qed.
 (* the polynomial the oracle is asked about is d/dt |poly(t) - z|^2 *)
@@ -40,25 +46,25 @@ Theorem C13_r_squared_is_sqdist : forall p z t, p <> [] ->
   peval NumR (r_squared NumR p z) t = sqd (cpeval NumR p t) z.
 Proof. exact r_squared_eval. Qed.
 (* the two segment classes (C03: point(t) = poly()(t)) *)
-Theorem C13_quad_global_partial : forall atol rtol s c e z roots, 0 < atol ->
+Theorem C13_quad_global_partial : forall fixed atol rtol s c e z roots, 0 < atol -> 0 <= rtol ->
   oracle_ok (r_squared_deriv NumR (quad_poly NumR s c e) z) roots ->
-  separated atol rtol (le01 NumR) roots ->
+  separated fixed atol rtol (le01 NumR) roots ->
   let '((dmin, tmin), (dmax, tmax)) :=
-      bezier_radialrange NumR NumTR atol rtol (quad_point NumR s c e) z roots in
+      bezier_radialrange NumR NumTR fixed atol rtol (quad_point NumR s c e) z roots in
   forall t, 0 <= t <= 1 -> dmin <= dist (quad_point NumR s c e t) z <= dmax.
 Proof.
-  intros atol rtol s c e z roots Ha. apply (bezier_radial_global atol rtol (quad_poly NumR s c e)); auto.
+  intros fixed atol rtol s c e z roots Ha Hr. apply (bezier_radial_global fixed atol rtol (quad_poly NumR s c e)); auto.
   - unfold quad_poly; congruence.
   - intros t. symmetry. apply (quad_poly_eval NumR NumR_ok).
 Qed.
-Theorem C13_cubic_global_partial : forall atol rtol s c1 c2 e z roots, 0 < atol ->
+Theorem C13_cubic_global_partial : forall fixed atol rtol s c1 c2 e z roots, 0 < atol -> 0 <= rtol ->
   oracle_ok (r_squared_deriv NumR (cubic_poly NumR s c1 c2 e) z) roots ->
-  separated atol rtol (le01 NumR) roots ->
+  separated fixed atol rtol (le01 NumR) roots ->
   let '((dmin, tmin), (dmax, tmax)) :=
-      bezier_radialrange NumR NumTR atol rtol (cubic_point NumR s c1 c2 e) z roots in
+      bezier_radialrange NumR NumTR fixed atol rtol (cubic_point NumR s c1 c2 e) z roots in
   forall t, 0 <= t <= 1 -> dmin <= dist (cubic_point NumR s c1 c2 e t) z <= dmax.
 Proof.
-  intros atol rtol s c1 c2 e z roots Ha. apply (bezier_radial_global atol rtol (cubic_poly NumR s c1 c2 e)); auto.
+  intros fixed atol rtol s c1 c2 e z roots Ha Hr. apply (bezier_radial_global fixed atol rtol (cubic_poly NumR s c1 c2 e)); auto.
   - unfold cubic_poly; congruence.
   - intros t. symmetry. apply (cubic_poly_eval NumR NumR_ok).
 Qed.
@@ -96,7 +102,8 @@ Proof.
 Qed.
 
 (* ---- refutations: the faithful model violates the statement ---- *)
-(* the de-duplication loop of polyroots uses a pair index as a root index:
+(* PINNED variant (fixed = false) only.
+   the de-duplication loop of polyroots uses a pair index as a root index:
    every listed root passes the filters, but the simple root 1/10 is dropped
    and both copies of the double root 7/10 are kept *)
 Theorem C13_dedup_loses_root_refuted :
@@ -109,6 +116,13 @@ Proof.
   exact (conj dedup_drops_simple_root_true (conj dedup_drops_last_root_true
          (conj w_oracle_exact_true w_nonglobal_true))).
 Qed.
+(* REPAIRED variant (fixed = true) on the same oracle outputs: every distinct
+   root survives exactly once and bezier_radialrange returns the global
+   minimiser t = 1/10 -- the premise `separated true` holds there (the double
+   root listed twice is harmless), `separated false` does not *)
+Theorem C13_dedup_repaired_keeps_root :
+  dedup_fixed_keeps_roots = true /\ w_fixed_global = true.
+Proof. exact (conj dedup_fixed_keeps_roots_true w_fixed_global_true). Qed.
 (* farthest_point_in_path on a path whose every point is the query point:
    the seed (0, None, None) survives, no segment index is returned *)
 Example C13_path_farthest_degenerate_refuted :
@@ -121,17 +135,17 @@ Example C13_dedup_intended_cases : dedup_ok_cases = true.
 Proof. exact dedup_ok_cases_true. Qed.
 (* the oracle contract is satisfiable: P(t) = (t, t^2), z = 0:
    d/dt |P|^2 = 4t^3 + 2t has the single real root 0 *)
-Example C13_contract_satisfiable : forall atol rtol,
+Example C13_contract_satisfiable : forall fixed atol rtol,
   let p := quad_poly NumR (0, 0) (1 / 2, 0) (1, 1) in
-  oracle_ok (r_squared_deriv NumR p (0, 0)) [(0, 0)] /\ separated atol rtol (le01 NumR) [(0, 0)].
+  oracle_ok (r_squared_deriv NumR p (0, 0)) [(0, 0)] /\ separated fixed atol rtol (le01 NumR) [(0, 0)].
 Proof.
-  intros atol rtol p. split.
+  intros fixed atol rtol p. split.
   - intros _ t _ H. left. f_equal.
     unfold p, r_squared_deriv, r_squared, quad_poly, peval in H. cbn in H.
     assert (E : 2 * t * (2 * (t * t) + 1) = 0) by lra.
     apply Rmult_integral in E. destruct E as [E|E]; [lra|].
     pose proof (Rle_0_sqr t) as S. unfold Rsqr in S. lra.
-  - unfold separated, no_close_pairs, real_roots. cbn [filter map].
+  - unfold separated. apply no_close_pairs_sep_ok. unfold no_close_pairs, real_roots. cbn [filter map].
     destruct (isclose NumR atol rtol (im (0, 0)) (zero NumR)); cbn [filter map].
     + destruct (le01 NumR (re (0, 0))); cbn; intros a b [].
     + cbn; intros a b [].
@@ -149,6 +163,7 @@ Print Assumptions C13_path_min.
 Print Assumptions C13_path_max.
 Print Assumptions C13_path_global.
 Print Assumptions C13_dedup_loses_root_refuted.
+Print Assumptions C13_dedup_repaired_keeps_root.
 Print Assumptions C13_path_farthest_degenerate_refuted.
 Print Assumptions C13_dedup_intended_cases.
 Print Assumptions C13_contract_satisfiable.
